@@ -39,12 +39,45 @@ def showCMap (m : CMap) : String :=
 def showIState (st : IState) : String :=
   s!"A={showSet st.active}|C={showSet st.cand}|T={showCMap st.ctrain}|E={showCMap st.ctest}"
 
+/-! ## rationals -/
+
+def parseRat? (s : String) : Option Rat :=
+  match s.splitOn "/" with
+  | [a] => a.toInt?.map fun n => (n : Rat)
+  | [a, b] => do
+      let n ← a.toInt?
+      let d ← b.toNat?
+      if d = 0 then none else some ((n : Rat) / (d : Rat))
+  | _ => none
+
+def showRat (r : Rat) : String := if r.den = 1 then toString r.num else s!"{r.num}/{r.den}"
+
+def parseRats? (toks : List String) : Option (List Rat) := toks.mapM parseRat?
+
+/-- split a token list at "|" separators -/
+def splitBar (toks : List String) : List (List String) :=
+  let (cur, acc) := toks.foldl (fun (cur, acc) t => if t == "|" then ([], acc ++ [cur]) else (cur ++ [t], acc)) ([], [])
+  acc ++ [cur]
+
+/-- split a token list at ";" separators -/
+def splitSemi (toks : List String) : List (List String) :=
+  let (cur, acc) := toks.foldl (fun (cur, acc) t => if t == ";" then ([], acc ++ [cur]) else (cur ++ [t], acc)) ([], [])
+  acc ++ [cur]
+
+def parseMatrix? (toks : List String) : Option (List (List Rat)) :=
+  if toks.isEmpty then some [] else (splitSemi toks).mapM parseRats?
+
+def showRats (l : List Rat) : String := " ".intercalate (l.map showRat)
+
 /-! ## driver state -/
 
 structure DState where
   box  : Idx := []
   ist  : IState := {}
   sim  : IState := {}
+  lstates : List (String × LState) := []
+  ldata   : List (String × List (List Rat)) := []
+  lcoef   : List (String × Int) := []
 
 def stepIdx (st : DState) (cmd : String) (args : List String) : DState × String :=
   match cmd, args with
@@ -85,11 +118,108 @@ def stepIdx (st : DState) (cmd : String) (args : List String) : DState × String
       | none => (st, "bad-op")
   | _, _ => (st, "bad-op")
 
+def lookupS {α} (l : List (String × α)) (k : String) : Option α := (l.find? (·.1 == k)).map (·.2)
+def upsert {α} (l : List (String × α)) (k : String) (v : α) : List (String × α) :=
+  (l.filter (·.1 != k)) ++ [(k, v)]
+
+def stepItp (st : DState) (cmd : String) (args : List String) : DState × String :=
+  let parts := splitBar args
+  match cmd, parts with
+  | "itp.reset", _ => ({ st with lstates := [], ldata := [], lcoef := [] }, "ok")
+  -- itp.state key | g11 g12 ; g21 ... | w11 ... ; w21 ...
+  | "itp.state", [[key], g, w] =>
+      match parseMatrix? g, parseMatrix? w with
+      | some gs, some ws => ({ st with lstates := upsert st.lstates key { grids := gs, wts := ws } }, "ok")
+      | _, _ => (st, "bad-op")
+  -- itp.autostate key | g11 g12 ; g21 ...     (weights computed by the model with capacity 1)
+  | "itp.autostate", [[key], g] =>
+      match parseMatrix? g with
+      | some gs => ({ st with lstates := upsert st.lstates key { grids := gs, wts := gs.map (wtsInit 1) } }, "ok")
+      | _ => (st, "bad-op")
+  | "itp.data", [[key], rows] =>
+      match parseMatrix? rows with
+      | some r => ({ st with ldata := upsert st.ldata key r }, "ok")
+      | none => (st, "bad-op")
+  | "itp.coef", [[key, c]] =>
+      match c.toInt? with
+      | some ci => ({ st with lcoef := upsert st.lcoef key ci }, "ok")
+      | none => (st, "bad-op")
+  -- itp.term key tol | x...
+  | "itp.term", [[key, tol], x] =>
+      match lookupS st.lstates key, lookupS st.ldata key, parseRat? tol, parseRats? x with
+      | some ls, some rows, some t, some xs => (st, showRats (predictT t ls rows xs))
+      | _, _, _, _ => (st, "bad-op")
+  | "itp.grad", [[key, tol, k], x] =>
+      match lookupS st.lstates key, lookupS st.ldata key, parseRat? tol, parseRats? x, k.toNat? with
+      | some ls, some rows, some t, some xs, some kk => (st, showRats (gradT t ls rows xs kk))
+      | _, _, _, _, _ => (st, "bad-op")
+  | "itp.hess", [[key, tol, m, n], x] =>
+      match lookupS st.lstates key, lookupS st.ldata key, parseRat? tol, parseRats? x, m.toNat?, n.toNat? with
+      | some ls, some rows, some t, some xs, some mm, some nn => (st, showRats (hessT t ls rows xs mm nn))
+      | _, _, _, _, _, _ => (st, "bad-op")
+  -- itp.misc tol | x...      Σ coef · term over all registered coefficients
+  | "itp.misc", [[tol], x] =>
+      match parseRat? tol, parseRats? x with
+      | some t, some xs =>
+          let terms := st.lcoef.filterMap fun (key, c) =>
+            match lookupS st.lstates key, lookupS st.ldata key with
+            | some ls, some rows => some (c, predictT t ls rows xs)
+            | _, _ => none
+          if terms.length != st.lcoef.length then (st, "bad-op") else (st, showRats (miscSum terms))
+      | _, _ => (st, "bad-op")
+  -- itp.miscabs tol kindcode... | x   condition scale Σ|c|·Σ|ΠL||y| ; kinds: list of 0/1/2 per dimension
+  | "itp.miscabs", [tol :: kinds, x] =>
+      match parseRat? tol, parseRats? x, kinds.mapM String.toNat? with
+      | some t, some xs, some ks =>
+          let terms := st.lcoef.filterMap fun (key, c) =>
+            match lookupS st.lstates key, lookupS st.ldata key with
+            | some ls, some rows => some ((if c < 0 then -c else c), predictAbsT t ls rows xs (fun d => ks.getD d 0))
+            | _, _ => none
+          (st, showRats (miscSum terms))
+      | _, _, _ => (st, "bad-op")
+  | "itp.miscgrad", [[tol, k], x] =>
+      match parseRat? tol, parseRats? x, k.toNat? with
+      | some t, some xs, some kk =>
+          let terms := st.lcoef.filterMap fun (key, c) =>
+            match lookupS st.lstates key, lookupS st.ldata key with
+            | some ls, some rows => some (c, gradT t ls rows xs kk)
+            | _, _ => none
+          if terms.length != st.lcoef.length then (st, "bad-op") else (st, showRats (miscSum terms))
+      | _, _, _ => (st, "bad-op")
+  | "itp.mischess", [[tol, m, n], x] =>
+      match parseRat? tol, parseRats? x, m.toNat?, n.toNat? with
+      | some t, some xs, some mm, some nn =>
+          let terms := st.lcoef.filterMap fun (key, c) =>
+            match lookupS st.lstates key, lookupS st.ldata key with
+            | some ls, some rows => some (c, hessT t ls rows xs mm nn)
+            | _, _ => none
+          if terms.length != st.lcoef.length then (st, "bad-op") else (st, showRats (miscSum terms))
+      | _, _, _, _ => (st, "bad-op")
+  -- itp.refine C | old grid | old weights | new points      ("-" for no old state)
+  | "itp.refine", [[c], g, w, pts] =>
+      match parseRat? c, parseRats? pts with
+      | some cc, some ps =>
+          if g == ["-"] then
+            let (gx, wx) := refine1 cc none ps
+            (st, showRats gx ++ " | " ++ showRats wx)
+          else match parseRats? g, parseRats? w with
+            | some gs, some ws =>
+                let (gx, wx) := refine1 cc (some (gs, ws)) ps
+                (st, showRats gx ++ " | " ++ showRats wx)
+            | _, _ => (st, "bad-op")
+      | _, _ => (st, "bad-op")
+  | "itp.snaptol", [[scale]] =>
+      match parseRat? scale with
+      | some sc => (st, showRat (Amisc.Gen.snapTol sc))
+      | none => (st, "bad-op")
+  | _, _ => (st, "bad-op")
+
 def step (st : DState) (line : String) : DState × String :=
   match (line.trimAscii.toString.splitOn " ").filter (· ≠ "") with
   | [] => (st, "")
   | cmd :: args =>
       if cmd.startsWith "idx." then stepIdx st cmd args
+      else if cmd.startsWith "itp." then stepItp st cmd args
       else (st, "bad-op")
 
 partial def loop (h : IO.FS.Stream) (out : IO.FS.Stream) (st : DState) : IO Unit := do
